@@ -642,7 +642,9 @@ class Ops(Suite):
                 fu = res["full"]
                 out.append((f"gtosubdep pids={gen.ints(fu['pids'])} types={gen.ints(fu['types'])} xs={gen.ints(fu['r8'])} subids={gen.ints(dep['marked'])}",
                             " / ".join(gen.ints(dep[c]).replace("_", "") for c in ("id", "pid", "type", "r8")) + f" /  / {dep['n']} / "
-                            + ("same" if dep["same"] else "CHANGED") + " / " + ";".join(f"{a}:{b}" for a, b in dep["idmap"])))
+                            + ("same" if dep["same"] and dep["idmap"] == [[v - 1, j] for j, v in enumerate(dep["r8"])] else "CHANGED") + " / "
+                            # the old→new dictionary, stated independently: the old id of result row j is its position tag r·8 − 1
+                            + ";".join(f"{v - 1}:{j}" for j, v in enumerate(dep["r8"]))))
             im = res.get("impl")
             if im and "exc" not in im:
                 out.append((f"gsubimpl ids={gen.ints(im['in_ids'])} pids={gen.ints(im['in_pids'])} types={gen.ints(im['in_types'])} xs={gen.ints(im['in_r8'])} "
